@@ -27,7 +27,7 @@ RULE = (
     "4097, 4600, 8 KiB, 12 000, 16 KiB, 64 KiB, 256 KiB, 1 MiB, 8 MiB−64 KiB} × VGI_RPC_SHM_MIN_BATCH_BYTES ∈ {0, 1024} "
     "(fixed per shard process, set before vgi_rpc.shm is imported) × server segment {static ShmPipeTransport, dynamic "
     "attach from request metadata} × client policy {release each, hold k∈1..3 then release, never release until the "
-    "end}; 1/16 of exchange calls send a first input with a renamed column (must be rejected).  Non-trivial = ≥3 calls and ≥1 batch actually went through shm (allocator write or free counted on the "
+    "end}; 1/16 of exchange calls send a first input with a renamed column (must be rejected); 1/12 are made through a client Protocol with one more parameter (request refused while read, first input already sent).  Non-trivial = ≥3 calls and ≥1 batch actually went through shm (allocator write or free counted on the "
     "segment).  Distinct by SHA-1 of the JSON case."
 )
 ASSUMPTIONS = [
@@ -113,7 +113,7 @@ def run_case(case: dict[str, Any]) -> Outcome:
                     f"differs_from_inline/{kind}/{aspect}" + ("/raw" if b["raw"] else ""),
                     f"call#{ci} {aspect}: inline {str(a[aspect])[:600]}\n shm {str(b[aspect])[:600]}\n (shm vs model: {md or 'agrees'})",
                 )
-        elif not b["raw"] and "bad_input" not in call and transports.compare_to_model(b, models[ci]):
+        elif not b["raw"] and "bad_input" not in call and "skew" not in call and transports.compare_to_model(b, models[ci]):
             out.label("model_disagrees_with_both")  # not C29's business (C01); visible in evidence
     # what the implementation received must not depend on the route
     ia = [repr({k: v for k, v in e.items() if k not in _VOLATILE}) for e in ev_inline]
@@ -160,6 +160,8 @@ def run_case(case: dict[str, Any]) -> Outcome:
         out.label("mixed_shm_and_inline_batches")
     if any("bad_input" in c for c in calls):
         out.label("has_rejected_input_call")
+    if any(c.get("skew") for c in calls):
+        out.label("has_refused_request_call")
     if any(o["error"] is not None for o in res["obs"]):
         out.label("has_error_call")
     out.note = {"facts": facts, "calls": len(calls), "errors": [o["error"]["type"] if o["error"] else None for o in res["obs"]]}
